@@ -58,7 +58,16 @@ def comparators(ctx, f, loopvars, params):
                     if not (names & loopvars and names & params):
                         continue
                     c = norm_cmp(x) if n.kind != "branch" or x is not n.ast else norm_cmp(n.ast)
-                    if x is not n.ast and n.kind == "branch":
+                    top = n.ast
+                    while isinstance(top, ast.UnaryOp) and isinstance(top.op, ast.Not):
+                        top = top.operand
+                    if n.kind == "branch" and top is x and x is not n.ast:
+                        c = norm_cmp(n.ast)         # `not (a < b)` at the top of the test
+                        tsucc = [s_ for s_, lab in n.succ if lab == "true"]
+                        action = type(tsucc[0].ast).__name__ if tsucc and tsucc[0].ast is not None else "?"
+                        if tsucc and tsucc[0].kind == "branch":
+                            action = "If"
+                    elif x is not n.ast and n.kind == "branch":
                         # comparison nested in a larger test (IfExp, BoolOp): report as-is
                         c = norm_cmp(x)
                         action = "Nested:" + type(n.ast).__name__
